@@ -171,9 +171,12 @@ def same_tokens(src, printed, ignore_comments):
     keywords -= {n.lower() for n in names}
     a = [w for w in sw if not (w[0].isalpha() and w.lower() in keywords)]
     b = [w for w in pw if not (w[0].isalpha() and w.lower() in keywords)]
-    if a == b:
+    # (an intrinsic reference is printed in upper case -- documented -- also where the same word is a declared name elsewhere)
+    def same(x, y):
+        return x == y or (y.isupper() and x.lower() == y.lower())
+    if len(a) == len(b) and all(same(x, y) for x, y in zip(a, b)):
         return True, ""
-    k = next((i for i in range(min(len(a), len(b))) if a[i] != b[i]), min(len(a), len(b)))
+    k = next((i for i in range(min(len(a), len(b))) if not same(a[i], b[i])), min(len(a), len(b)))
     return False, "word %d of the source is %r, of the regenerated text %r (source words %r ..., regenerated %r ...)" \
         % (k + 1, a[k] if k < len(a) else None, b[k] if k < len(b) else None, a[max(0, k - 2):k + 3], b[max(0, k - 2):k + 3])
 
